@@ -1,6 +1,7 @@
 package vf
 
 import (
+	"encoding/json"
 	"fmt"
 	"sort"
 )
@@ -207,12 +208,115 @@ func init() {
 		}
 		evs := collEventSpecs(r, []string{"twin", "ev:commit1", "ev:creopen"}, 1, ed)
 		r.ExploreSpecs(evs)
+		r.RunTaskGroup("one collision group grown to 258 keys at the default limit (3 shapes x 2 slab sizes)", "colldeep", collDeepArgs())
 		// collisions under the DEFAULT digester (keys built to collide on the first level for every seed):
 		// deeper levels come from the pooled BLAKE3 digester
 		r.ExploreSpecs([]Spec{
 			{Name: "realcoll-T256", Kind: "map-small", T: 256, Keys: 1, Extra: map[string]int{"realcoll": 4}, Classes: []string{"t", "s60"}, Oracles: []string{"sem", "struct", "iter", "reopen"}},
 		})
 	}})
+}
+
+// ---- deep collision groups at the DEFAULT limit (255) -----------------------------------------------
+//
+// The closures above use 3-4 keys, so the default limit is never reached there.  This task grows ONE collision
+// group to N keys under the default limit, in three shapes, every operation compared with the dictionary model
+// and the property's refusal rule:
+//   shape 0: the keys share the first digest only (distinct second level): the 257th insert must be refused with
+//            the collision-limit error, updates of present keys stay accepted, and after one removal the insert passes;
+//   shape 1: the keys share the first two digests (distinct third level): one second-level entry, never refused;
+//   shape 2: the keys collide on every level (digest-less list): never refused.
+type collDeepArg struct {
+	T     uint32 `json:"t"`
+	Shape int    `json:"shape"`
+	N     int    `json:"n"`
+}
+
+func collDeepTask(raw json.RawMessage) TaskResult {
+	var a collDeepArg
+	var res TaskResult
+	if err := json.Unmarshal(raw, &a); err != nil {
+		res.Herr = err.Error()
+		return res
+	}
+	w := NewWorld(a.T)
+	w.Digests = NewDigestTable()
+	setCollisionLimit(255)
+	w.KeyOf = func(n int) MV { return Scalar{uint64(n)} }
+	for k := 0; k < a.N+2; k++ {
+		d := [4]uint64{7, uint64(k) + 1, 1, 1}
+		switch a.Shape {
+		case 1:
+			d = [4]uint64{7, 7, uint64(k) + 1, 1}
+		case 2:
+			d = [4]uint64{7, 7, 7, 7}
+		}
+		w.Digests.Table[uint64(k)] = d
+	}
+	// two keys outside the group, before and after it in digest order
+	w.Digests.Table[1000] = [4]uint64{3, 1, 1, 1}
+	w.Digests.Table[1001] = [4]uint64{9, 1, 1, 1}
+	what := fmt.Sprintf("collision group of %d keys, shape %d, default limit", a.N, a.Shape)
+	step := func(o Op) bool {
+		res.Evals++
+		if err := w.Apply(o); err != nil {
+			res.Viols = append(res.Viols, fmt.Sprintf("%s: after %d operations: %v", what, res.Evals, err))
+			return false
+		}
+		return true
+	}
+	check := func(or ...string) bool {
+		if err := RunOracles(w, Spec{Oracles: or}); err != nil {
+			res.Viols = append(res.Viols, fmt.Sprintf("%s: after %d operations: %v", what, res.Evals, err))
+			return false
+		}
+		return true
+	}
+	if !step(Op{K: "newmap"}) || !step(Op{K: "mset", Key: 1000, V: "t"}) || !step(Op{K: "mset", Key: 1001, V: "t"}) {
+		return res
+	}
+	for k := 0; k < a.N; k++ {
+		if !step(Op{K: "mset", Key: k, V: "t"}) {
+			return res
+		}
+		if k%37 == 0 || k >= 250 {
+			if !check("sem", "struct", "order") {
+				return res
+			}
+		}
+	}
+	// updates of present keys are never refused; lookups; a removal re-opens room for one insert
+	for _, k := range []int{0, 100, 254, 255} {
+		if k < a.N && (!step(Op{K: "mset", Key: k, V: "s60"}) || !step(Op{K: "mget", Key: k})) {
+			return res
+		}
+	}
+	if !step(Op{K: "mremove", Key: 3}) || !step(Op{K: "mset", Key: a.N, V: "t"}) || !step(Op{K: "mset", Key: a.N + 1, V: "t"}) || !step(Op{K: "mget", Key: a.N + 1}) {
+		return res
+	}
+	if !check("sem", "struct", "order", "reopen") {
+		return res
+	}
+	// drain the group again (collapse of the external group back to a single element)
+	for k := 0; k < a.N+2; k++ {
+		if !step(Op{K: "mremove", Key: k}) {
+			return res
+		}
+	}
+	check("sem", "struct", "reach")
+	res.Distinct = append(res.Distinct, what)
+	res.Samples = append(res.Samples, what)
+	return res
+}
+
+func init() { RegisterTask("colldeep", collDeepTask) }
+
+func collDeepArgs() []any {
+	var args []any
+	for shape := 0; shape < 3; shape++ {
+		args = append(args, collDeepArg{T: 256, Shape: shape, N: 258}, collDeepArg{T: 1024, Shape: shape, N: 258})
+	}
+	return args
 }
 
 // collMetaSpecs: collision groups inside maps whose root is an index slab: 5-6 keys, two or three of
